@@ -17,7 +17,8 @@ one() {
   done
   git -C /repo worktree remove --force $wt; rm -rf $out
   echo "$n: ${hits:- MISSED}"
+  [ -n "${PROGRESS:-}" ] && echo "$n: ${hits:- MISSED}" >> $PROGRESS
 }
-RUNID=$$; export -f one; export PROPS TIER RUNID TARGETED
+RUNID=$$; export -f one; export PROPS TIER RUNID TARGETED PROGRESS
 ls -d ${@:-seeded/*/} | xargs -P 14 -I{} bash -c 'one {}' | sort
 git -C /repo worktree prune
